@@ -11,6 +11,7 @@ mod float;
 mod views;
 mod text;
 mod ettdb;
+mod leapfile;
 
 pub enum Tok {
     Z(i128),
@@ -71,7 +72,7 @@ pub fn pdur(d: Duration) -> String {
 }
 
 fn run(name: &str, a: &Args) -> Option<String> {
-    dur::run(name, a).or_else(|| epoch::run(name, a)).or_else(|| float::run(name, a)).or_else(|| views::run(name, a)).or_else(|| text::run(name, a)).or_else(|| ettdb::run(name, a))
+    dur::run(name, a).or_else(|| epoch::run(name, a)).or_else(|| float::run(name, a)).or_else(|| views::run(name, a)).or_else(|| text::run(name, a)).or_else(|| ettdb::run(name, a)).or_else(|| leapfile::run(name, a))
 }
 
 fn main() {
